@@ -281,6 +281,23 @@ func callOf(in ssa.Instruction) *callInfo {
 		ci.static = originOf(f.Fn.(*ssa.Function))
 	default:
 		ci.dynamic = true
+		// under a substitution (a decision path, a code unit) the called value may be known: a local that was
+		// assigned one of two functions (`wire := plain; if neg { wire = negated }; wire(fn, &t)`), a function or
+		// closure passed to a helper's func parameter
+		if substEnv != nil {
+			switch f := cv(cc.Value).(type) {
+			case *ssa.Function:
+				// (not the synthetic wrappers of method expressions and method values: the formula printer
+				// resolves those itself, to the method they stand for)
+				if f.Synthetic == "" && (f.Blocks != nil || f.Pkg == nil) {
+					ci.static, ci.dynamic = originOf(f), false
+				}
+			case *ssa.MakeClosure:
+				if g := f.Fn.(*ssa.Function); g.Synthetic == "" {
+					ci.static, ci.dynamic = originOf(g), false
+				}
+			}
+		}
 	}
 	return ci
 }
